@@ -67,15 +67,15 @@ Vals(S, t) ==
                        { SV(<<>>), SV(<<pz>>), SV(<<nz>>), SV(<<pz, one>>), SV(<<nz, one>>) }
     [] r.k = "set"  -> LET p == Pick2(Vals(S, r.e)) IN { SV(<<>>), SV(<<p[1]>>), SV(p) }
     [] r.k = "map"  -> LET pk == Pick2(Vals(S, r.kt)) pv == Pick2(Vals(S, r.vt)) IN
-                       { MV(<<>>), MV(<< [k |-> pk[1], v |-> pv[1]] >>),
+                       { MV(<<>>), MV(<< [k |-> pk[1], v |-> pv[1]] >>), MV(<< [k |-> pk[Len(pk)], v |-> pv[1]] >>),     \* the same value under another key
                          MV(<< [k |-> pk[1], v |-> pv[Len(pv)]], [k |-> pk[Len(pk)], v |-> pv[1]] >>) }
 
 \* ---- the types: one field "f" of each shape ---------------------------------
 \* (three of the container shapes get the EMPTY literal as their default: "= []" / "= {}")
-HasSimpleDefault(t) == t \in { B("bool"), B("i16"), B("i32"), B("i64"), B("double"), B("string"), Ref("MyStr"), Ref("Color"), Ref("MyInt"), ListOf(B("i32")),
+HasSimpleDefault(t) == t \in { B("bool"), B("i8"), B("i16"), B("i32"), B("i64"), B("double"), B("string"), Ref("MyStr"), Ref("Color"), Ref("MyInt"), ListOf(B("i32")),
                               ListOf(B("string")), SetOf(B("i32")), MapOf(B("string"), B("i32")), Ref("MyList") }
 SimpleDefault(t) ==
-  CASE t = B("bool") -> I(1) [] t = B("i16") -> I(258) [] t = B("i32") -> I(16909060) [] t = Ref("MyInt") -> I(16909060)
+  CASE t = B("bool") -> I(1) [] t = B("i8") -> I(-7) [] t = B("i16") -> I(258) [] t = B("i32") -> I(16909060) [] t = Ref("MyInt") -> I(16909060)
     [] t = B("i64") -> L64(<<0,0,0,7>>) [] t = B("double") -> Dbl(<<16393,8699,21572,11544>>)     \* pi: 17 significant digits in the IDL
     \* strings that need care in every quoting style: CR LF, tab, both quotes, backslash, a two-byte character; backquotes, NUL, BEL
     [] t = B("string") -> Str(<<97,13,10,98,9,34,39,92,195,169>>) [] t = Ref("MyStr") -> Str(<<96,10,96,0,7>>) [] t = Ref("Color") -> I(2) [] t = ListOf(B("i32")) -> LV(<< I(0), I(16909060) >>)
